@@ -318,11 +318,25 @@ TraceTruncated ==
 
 \* eval / ret traces: a single judging step (the work is in the emission)
 TraceJudge ==
-  /\ Mode = "trace" /\ Tr.kind \in {"eval", "ret"} /\ phase = "run"
+  /\ Mode = "trace" /\ Tr.kind = "eval" /\ phase = "run"
+  /\ phase' = "done"
+  /\ UNCHANGED <<tid, l, s, t, ag, hist, fails, flags>>
+
+\* ret traces: a history of calc_returns calls (discounts Tr.calls) on ONE reward-sequence object.  Computing
+\* returns is a function of the reward sequence: in the model the sequence Tr.rs is a constant of the history, so
+\* every call is judged against the recursion of Tr.rs; Tr.after[l] is what the caller's object held after call l.
+TraceRetCall ==
+  /\ Mode = "trace" /\ Tr.kind = "ret" /\ phase = "run" /\ l <= Len(Tr.calls)
+  /\ l' = l + 1
+  /\ fails' = fails \cup (IF Tr.after[l] # Tr.rs THEN {F("reward-sequence-changed-by-the-call")} ELSE {})
+  /\ UNCHANGED <<tid, s, t, ag, hist, phase, flags>>
+TraceRetDone ==
+  /\ Mode = "trace" /\ Tr.kind = "ret" /\ phase = "run" /\ l = Len(Tr.calls) + 1
   /\ phase' = "done"
   /\ UNCHANGED <<tid, l, s, t, ag, hist, fails, flags>>
 
 Next == MCStep \/ MCStop \/ TraceInit \/ TraceStep \/ TraceStop \/ TraceTruncated \/ TraceJudge
+        \/ TraceRetCall \/ TraceRetDone
 Spec == Init /\ [][Next]_vars
 
 \* ------------------------------------------------------------------ emission
@@ -359,9 +373,11 @@ Emit ==
                              rets |-> IF phase = "done" /\ Fits(TI, t) THEN RollRets(TraceRewards(Tr), Gam(TI)) ELSE <<>>,
                              retsok |-> Fits(TI, t)]))
          ELSE IF Tr.kind = "eval" THEN PrintT(ToJson(EvalRecord(TI, Tr)))
-         ELSE PrintT(ToJson([tid |-> tid, kind |-> "ret",
-                             rets |-> RetSeq(Tr.rs, <<Tr.GN, Tr.GD>>),
-                             direct |-> [i \in 1..Len(Tr.rs) |-> DirectRet(Tr.rs, i, <<Tr.GN, Tr.GD>>)]]))
+         ELSE PrintT(ToJson([tid |-> tid, kind |-> "ret", fails |-> fails,
+                             calls |-> [c \in 1..Len(Tr.calls) |->
+                                LET g == <<Tr.calls[c][1], Tr.calls[c][2]>> IN
+                                [rets |-> RetSeq(Tr.rs, g),
+                                 direct |-> [i \in 1..Len(Tr.rs) |-> DirectRet(Tr.rs, i, g)]]]]))
 
 \* ------------------------------------------------------------------ (P) properties of the design
 \* roll-outs stop exactly at the first absorbing state or at the cap: never later, never earlier
